@@ -3,16 +3,18 @@
 // Real nsqd daemons (in-process, small limits: max-msg-size 64, max-body-size 320) are
 // sent generated HTTP requests over real loopback sockets (raw HTTP/1.1 so that path,
 // query, framing and body are exactly what the generator chose):
-//   route  every method x every registered path and path variants (router rules)
-//   req    any route with present / missing / invalid / duplicated arguments, bodies
-//          declared / chunked / malformed, against a generated topic/channel state;
-//          the state is read through GET /stats before and after
-//   pub    /pub, text /mpub and binary /mpub on daemon A and the TCP twin (PUB / DPUB /
-//          MPUB) on daemon B; what each enqueued is then consumed over TCP (deferred
-//          messages are read with their delay through the verif hook)
-//   pint   strconv.ParseInt on the defer strings (the one stdlib function the model
-//          writes out)
-//   hostile malformed byte streams against a SUBPROCESS nsqd (a crash is observable)
+//
+//	route  every method x every registered path and path variants (router rules)
+//	req    any route with present / missing / invalid / duplicated arguments, bodies
+//	       declared / chunked / malformed, against a generated topic/channel state;
+//	       the state is read through GET /stats before and after
+//	pub    /pub, text /mpub and binary /mpub on daemon A and the TCP twin (PUB / DPUB /
+//	       MPUB) on daemon B; what each enqueued is then consumed over TCP (deferred
+//	       messages are read with their delay through the verif hook)
+//	pint   strconv.ParseInt on the defer strings (the one stdlib function the model
+//	       writes out)
+//	hostile malformed byte streams against a SUBPROCESS nsqd (a crash is observable)
+//
 // Every case carries the input needed to re-run it (-replay).
 package main
 
@@ -1256,6 +1258,12 @@ func genFraming(r *lib.Rand, rs *ReqSpec, body []byte) {
 	default:
 		rs.Framing = "cl"
 	}
+	// With exactly limit+1 readable bytes followed by a framing error, whether io.ReadAll
+	// (through its LimitReader) sees the error or the limit first depends on how much of
+	// the stream net/http had buffered (413 or 400, both legitimate): not generated.
+	if rs.Framing == "badchunk" && (len(rs.Body) == maxMsg+1 || len(rs.Body) == maxBody+1) {
+		rs.Body = append(rs.Body, 'x')
+	}
 }
 
 func genReqs(r *lib.Rand, n int) []Input {
@@ -1556,6 +1564,128 @@ func genPubs(r *lib.Rand, n int) []Input {
 	return ins
 }
 
+// genAdminMatrix: every admin endpoint against every kind of object of one fixed, rich
+// state (a paused topic with queued messages and two channels, an un-paused topic, an
+// ephemeral topic with its last channel, a topic without channels), plus unknown and
+// invalid names - so that "exactly the named object and nothing else" is exercised for
+// each endpoint on every run.
+func genAdminMatrix(r *lib.Rand) []Input {
+	pre := []TopicSpec{
+		{Name: "t1", Paused: true, Depth: 2, Chans: []ChanSpec{{Name: "c1", Paused: true, Depth: 2}, {Name: "c2", Depth: 1}}},
+		{Name: "t2", Chans: []ChanSpec{{Name: "c1", Depth: 1}, {Name: "c2", Paused: true, Depth: 3}}},
+		{Name: "e#ephemeral", Chans: []ChanSpec{{Name: "c1", Depth: 1}}},
+		{Name: "lonely", Depth: 3},
+	}
+	var ins []Input
+	k := 0
+	add := func(path, query string) {
+		fr, body := "none", []byte(nil)
+		if r.Chance(30) {
+			fr, body = "cl", []byte("ignored")
+		}
+		ins = append(ins, Input{Kind: "req", Name: fmt.Sprintf("admin-%d", k), Pre: pre,
+			Req: &ReqSpec{Method: "POST", Target: path + "?" + query, Framing: fr, Body: body}})
+		k++
+	}
+	topics := []string{"t1", "t2", "e%23ephemeral", "lonely", "nosuch", "bad+name", "new.topic", strings.Repeat("n", 65)}
+	for _, p := range []string{"/topic/create", "/topic/delete", "/topic/empty", "/topic/pause", "/topic/unpause"} {
+		for _, t := range topics {
+			add(p, "topic="+t)
+		}
+	}
+	pairs := [][2]string{{"t1", "c1"}, {"t1", "c2"}, {"t2", "c1"}, {"t2", "c2"}, {"e%23ephemeral", "c1"}, {"t1", "nosuch"}, {"t1", "bad+name"},
+		{"t1", "a%23b"}, {"nosuch", "c1"}, {"lonely", "fresh"}, {"lonely", "fresh%23ephemeral"}, {"bad+name", "c1"}, {"t2", strings.Repeat("c", 65)}}
+	for _, p := range []string{"/channel/create", "/channel/delete", "/channel/empty", "/channel/pause", "/channel/unpause"} {
+		for _, tc := range pairs {
+			add(p, "topic="+tc[0]+"&channel="+tc[1])
+		}
+	}
+	return ins
+}
+
+func fillLines(total int, trailingNL bool, lineLen int) []byte {
+	// a text body of exactly [total] bytes made of lines of at most lineLen bytes
+	var b bytes.Buffer
+	for b.Len() < total {
+		n := lineLen
+		left := total - b.Len()
+		if trailingNL {
+			if n+1 > left {
+				n = left - 1
+			}
+		} else if n >= left {
+			n = left
+		}
+		b.Write(bytes.Repeat([]byte{byte('a' + b.Len()%26)}, n))
+		if b.Len() < total {
+			b.WriteByte('\n')
+		}
+	}
+	return b.Bytes()
+}
+
+// genPubBoundary: publishes exactly at, one below and one above each limit, declared and
+// chunked - fixed cases present in every run.
+func genPubBoundary() []Input {
+	var ins []Input
+	k := 0
+	add := func(kind, target string, framing string, body []byte) {
+		rs := &ReqSpec{Method: "POST", Target: target, Framing: framing, Body: body}
+		if framing == "chunked" && len(body) > 3 {
+			rs.Chunks = []int{len(body) / 3, len(body) / 3}
+		}
+		ins = append(ins, Input{Kind: "pub", Name: fmt.Sprintf("bound-%d", k), PubKind: kind, Req: rs})
+		k++
+	}
+	for _, fr := range []string{"cl", "chunked"} {
+		for _, n := range []int{1, maxMsg - 1, maxMsg, maxMsg + 1, maxMsg + 2} {
+			add("pub", "/pub?topic=bound", fr, bytes.Repeat([]byte("p"), n))
+			add("pub", "/pub?topic=bound&defer=60000", fr, bytes.Repeat([]byte("d"), n))
+		}
+		add("pub", "/pub?topic=bound", fr, nil)
+		for _, total := range []int{maxBody - 1, maxBody, maxBody + 1} {
+			for _, nl := range []bool{true, false} {
+				add("mpub-text", "/mpub?topic=bound", fr, fillLines(total, nl, 50))
+				add("mpub-text", "/mpub?topic=bound", fr, fillLines(total, nl, maxMsg))
+			}
+		}
+		for _, n := range []int{maxMsg - 1, maxMsg, maxMsg + 1} {
+			add("mpub-text", "/mpub?topic=bound", fr, append(bytes.Repeat([]byte("l"), n), '\n'))
+			add("mpub-text", "/mpub?topic=bound", fr, append([]byte("ok\n"), bytes.Repeat([]byte("l"), n)...))
+		}
+		// binary batches of exactly 319 / 320 / 321 bytes: 4 + 4*(4+64) + (4+n)
+		for _, n := range []int{39, 40, 41} {
+			var p bytes.Buffer
+			p.Write(be32(5))
+			for i := 0; i < 4; i++ {
+				p.Write(be32(int32(maxMsg)))
+				p.Write(bytes.Repeat([]byte{byte('A' + i)}, maxMsg))
+			}
+			p.Write(be32(int32(n)))
+			p.Write(bytes.Repeat([]byte("z"), n))
+			add("mpub-binary", "/mpub?topic=bound&binary=true", fr, p.Bytes())
+		}
+		// count at and above (max-body-size - 4) / 5
+		for _, cnt := range []int{63, 64} {
+			var p bytes.Buffer
+			p.Write(be32(int32(cnt)))
+			for i := 0; i < cnt && p.Len()+5 <= maxBody; i++ {
+				p.Write(be32(1))
+				p.WriteByte('q')
+			}
+			add("mpub-binary", "/mpub?topic=bound&binary=1", fr, p.Bytes())
+		}
+		for _, n := range []int{maxMsg, maxMsg + 1} {
+			var p bytes.Buffer
+			p.Write(be32(1))
+			p.Write(be32(int32(n)))
+			p.Write(bytes.Repeat([]byte("m"), n))
+			add("mpub-binary", "/mpub?topic=bound&binary=true", fr, p.Bytes())
+		}
+	}
+	return ins
+}
+
 func genPInts(r *lib.Rand, n int) []Input {
 	var ins []Input
 	for i, s := range deferStrings {
@@ -1647,7 +1777,9 @@ func main() {
 	var ins []Input
 	ins = append(ins, genRoutes(r.Fork(), *nroutes)...)
 	ins = append(ins, genTLS(r.Fork())...)
+	ins = append(ins, genAdminMatrix(r.Fork())...)
 	ins = append(ins, genReqs(r.Fork(), *n)...)
+	ins = append(ins, genPubBoundary()...)
 	ins = append(ins, genPubs(r.Fork(), *n)...)
 	ins = append(ins, genPInts(r.Fork(), 40)...)
 	hr := r.Fork()
